@@ -266,8 +266,70 @@ func vh_C08_callbin() {
 	vAssert("C08.crosstalk.callbin", fA.data[1].Int() == a+1)
 }
 
+// "go report(x); x = b": the goroutine receives the value x had at the go
+// statement, whenever it is scheduled. Real code: the call generator with a go
+// statement as parent, for a function value held in a variable (compiled
+// function) and for an interpreted function. Under the engine the goroutine is
+// run after the later assignment (vRunGoroutines); natively it runs by itself.
+var vhGoForm = 0
+
+func vh_C08_go() {
+	vhResetClock()
+	vhStopAt = -1
+	i := vhNewInterp()
+	intT := &itype{cat: intT, rtype: reflect.TypeOf(0)}
+	var seen []int64
+	var wg sync.WaitGroup
+	record := func(v int64) {
+		seen = append(seen, v)
+		if !vSymbolic() {
+			wg.Done()
+		}
+	}
+	var c0 *node
+	var hostV reflect.Value
+	if vhGoForm == 0 {
+		host := func(v int) { record(int64(v)) }
+		hostV = reflect.ValueOf(host)
+		c0 = &node{interp: i, kind: identExpr, findex: 1, typ: &itype{cat: funcT, arg: []*itype{intT}, rtype: hostV.Type()}}
+	} else {
+		body := &node{interp: i}
+		body.start = body
+		body.exec = func(f *frame) bltn { record(f.data[0].Int()); return nil }
+		blk := &node{interp: i, start: body}
+		def := &node{interp: i, kind: funcDecl, typ: &itype{cat: funcT, arg: []*itype{intT}, rtype: reflect.TypeOf(func(int) {})}, types: []reflect.Type{intT.rtype}}
+		def.child = []*node{{interp: i}, {interp: i, ident: "p"}, {interp: i}, blk}
+		def.val = def
+		c0 = &node{interp: i, kind: identExpr, findex: notInFrame, val: def, typ: def.typ}
+	}
+	x := &node{interp: i, kind: identExpr, findex: 0, typ: intT}
+	stmt := &node{interp: i, kind: goStmt}
+	n := &node{interp: i, kind: callExpr, anc: stmt, child: []*node{c0, x}, typ: c0.typ}
+	stmt.child = []*node{n}
+	c0.anc, x.anc = n, n
+	call(n)
+	f := newFrame(i.frame, 2, i.runid())
+	f.data[0] = reflect.New(intT.rtype).Elem()
+	if vhGoForm == 0 {
+		f.data[1] = hostV
+	}
+	a, b := vNondetInt64("atGo"), vNondetInt64("later")
+	f.data[0].SetInt(a)
+	vReach("C08.go")
+	if !vSymbolic() {
+		wg.Add(1)
+	}
+	n.exec(f)           // go report(x)
+	f.data[0].SetInt(b) // x = b
+	vRunGoroutines()
+	if !vSymbolic() {
+		wg.Wait()
+	}
+	vAssert("C08.go.argument-fixed-at-go-statement", len(seen) == 1 && seen[0] == a)
+}
+
 var vhScenarios = map[string]func(map[string]string) bool{}
 
-var vhRegistry = map[string]func(){"vh_C08_callbin": vh_C08_callbin, "vh_C08_select": vh_C08_select, "vh_C08_chanop": vh_C08_chanop, "vh_C08_call": vh_C08_call}
+var vhRegistry = map[string]func(){"vh_C08_go": vh_C08_go, "vh_C08_callbin": vh_C08_callbin, "vh_C08_select": vh_C08_select, "vh_C08_chanop": vh_C08_chanop, "vh_C08_call": vh_C08_call}
 
-var vhIntVars = map[string]*int{"vhMaxSteps": &vhMaxSteps, "vhBlockOp": &vhBlockOp, "vhCancelMode": &vhCancelMode, "vhVariadic": &vhVariadic, "vhBinForm": &vhBinForm}
+var vhIntVars = map[string]*int{"vhMaxSteps": &vhMaxSteps, "vhBlockOp": &vhBlockOp, "vhCancelMode": &vhCancelMode, "vhVariadic": &vhVariadic, "vhBinForm": &vhBinForm, "vhGoForm": &vhGoForm}
